@@ -23,6 +23,7 @@ import GeomVerif.Driver.C19
 import GeomVerif.Driver.C20
 import GeomVerif.Driver.C05
 import GeomVerif.Driver.C07
+import GeomVerif.Driver.C17
 
 open GeomVerif GeomVerif.Wire
 
@@ -43,6 +44,7 @@ def dispatch (op : String) (inp go : Sexp) : Option Reply :=
   else if op.startsWith "C18." then Driver.C18.handle op inp go
   else if op.startsWith "C19." then Driver.C19.handle op inp go
   else if op.startsWith "C20." then Driver.C20.handle op inp go
+  else if op.startsWith "C17." then Driver.C17.handle op inp go
   else if op.startsWith "C07." then Driver.C07.handle op inp go
   else if op.startsWith "C05." || op.startsWith "C06." then Driver.C05.handle op inp go
   else none
